@@ -375,6 +375,13 @@ func (r *run) solve(c *knode) [][]interface{} {
 func (r *run) emit(ev string, c *knode, extra tr.M) {
 	m := tr.M{"ev": ev, "w": r.sc.Id, "clk": r.clk}
 	if c != nil {
+		// the line describes a state at rest: nothing of the ceremony's own goroutines is at work while it is taken
+		for deadline := time.Now().Add(120 * time.Second); busyGoroutines() > 0; {
+			if time.Now().After(deadline) {
+				fatal("node k%d: the ceremony's goroutines did not come to rest", c.key)
+			}
+			time.Sleep(100 * time.Microsecond)
+		}
 		pubs := [][]interface{}{}
 		relays := 0
 		for _, p := range c.takePubs() {
